@@ -59,6 +59,8 @@ type c01Knobs struct {
 	DupCert bool `json:"metadata_lists_certificate_twice,omitempty"`
 	// AADecoy: the metadata has an AttributeAuthorityDescriptor whose signing key is rsa4 (Mallory holds it): a key of another role of the entity
 	AADecoy bool `json:"attribute_authority_decoy,omitempty"`
+	// Verifier: the application installs a saml.SignatureVerifier (one that validates exactly like the library)
+	Verifier bool `json:"custom_signature_verifier,omitempty"`
 }
 
 type c01Op struct {
@@ -170,6 +172,7 @@ func genTamper(g *Rng, tier string) *Plan {
 	k.Hooks = g.Bool(0.2)
 	k.DupCert = strings.HasPrefix(k.Trust, "md") && g.Bool(0.3)
 	k.AADecoy = g.Bool(0.3)
+	k.Verifier = g.Bool(0.12)
 	p := &Plan{Knobs: mustJSON(k)}
 	n := 1 + g.PickW(5, 3, 2)
 	rotateAt, cur := -1, k.Trust
@@ -1681,6 +1684,9 @@ func c01NewSP(k c01Knobs) *saml.ServiceProvider {
 		fp, algo := c01Fingerprint(rsaKeys[0]), c01FPAlgo
 		spv.IDPCertificateFingerprint = &fp
 		spv.IDPCertificateFingerprintAlgorithm = &algo
+	}
+	if k.Verifier {
+		spv.SignatureVerifier = passVerifier{}
 	}
 	if k.Hooks {
 		spv.ValidateAudienceRestriction = func(*saml.Assertion) error { return nil }
